@@ -41,6 +41,9 @@ class EvalContext(metaclass=NamespaceableMeta):
         def __getitem__(self, key):
             if key in self:
                 value = super().__getitem__(key)
+                if self._eval_ctx._require_all_safe and not self._cfgobj[key].ayns.safe:
+                    # the value of an unsafe node must not be handed out from the cache either (evaluate_node would refuse to produce it)
+                    raise errors.UnsafeError(f'Note: the current context requires all evaluated nodes to be safe - see chained exceptions for more information', self._cfgobj[key], str(self._path + [key]))
                 # a partial placeholder stands either for a node which is still being evaluated (it then gives lazy access to
                 # the node's children) or for a node which has only been passed through on the way to one of its descendants -
                 # the latter has not been evaluated yet and has to be evaluated now, like a missing entry
